@@ -193,7 +193,7 @@ def run_property(pid, tier, seed, replay=None):
         if agg['evals'] == 0:
             inconclusive.append('the deciding monitor was never reached (0 evaluations)')
     # ---- verdicts
-    rdir = os.path.join(env.VERIF_DIR, 'replays')
+    rdir = os.environ.get('VERIF_REPLAY_DIR') or os.path.join(env.VERIF_DIR, 'replays')
     os.makedirs(rdir, exist_ok=True)
     tree = env.tree_identity()
     n_viol = 0
@@ -251,8 +251,9 @@ def run_property(pid, tier, seed, replay=None):
         ev = {'property_id': pid, 'tier': tier, 'seed': int(seed), 'level': getattr(mod, 'LEVEL', 'exploration'),
               'coverage': cov, 'assumptions': list(getattr(mod, 'ASSUMPTIONS', [])),
               'wall_s': round(wall, 2), 'violations': int(n_viol)}
-        os.makedirs(os.path.join(env.VERIF_DIR, 'evidence'), exist_ok=True)
-        with open(os.path.join(env.VERIF_DIR, 'evidence', pid + '.json'), 'w') as fh:
+        edir = os.environ.get('VERIF_EVIDENCE_DIR') or os.path.join(env.VERIF_DIR, 'evidence')
+        os.makedirs(edir, exist_ok=True)
+        with open(os.path.join(edir, pid + '.json'), 'w') as fh:
             json.dump(ev, fh, indent=1, default=_default)
     # ---- clean the scratch directory
     import shutil
